@@ -218,6 +218,8 @@ def oracle_p5(n, t, ops, snaps, dump):
     # (i) chains: gap-free, valid, linked, and equal on common rounds
     chains = {}
     for part in dump.split()[1:]:
+        if part.startswith("ch0="):
+            continue      # (chain hash of the first group: judged by vlib/netreshare.py)
         f = part.split(":")
         if len(f) < 7 or f[1].startswith("err"):
             return ("P5.i", f"dump of {f[0]} failed: {part[:120]}")
